@@ -4,11 +4,15 @@ Decides (shape): R1 extent >= index for arrays allocated in the library, symboli
 unconstrained; R2 every bottom-tested vector loop has its first iteration justified; R3 in-function
 acquire/release pairing on all paths; R4 constructor/destructor and init/destroy pairing; R5 thread-exit
 release of per-thread processors; R6 collector ownership of parameter objects created by readers;
+R7 objects and arrays created in a library function with uninitialised contents (the coefficient arrays behind new_LweSample,
+new_TLweSample, new_TorusPolynomial, ..., plain new[]/malloc/stack arrays) are written before they are read on every path;
 R8 no address of thread storage escapes into longer-lived objects; R9 the arrays of an object created in a function
 (extent from its constructor arguments) cover what every callee indexes through it (field requirements of the callee);
 R10 memcpy/memmove/memset ranges over arrays held in object fields stay inside the extent the owning object determines
 (zero instances on the unchanged tree: the library has no such call; exercised by the seeded change C14b and a benign rewrite).
-Not decided: index arithmetic inside the FFT kernels, user-chosen lifecycles, libfftw3/libstdc++ internals.
+Not decided: index arithmetic inside the FFT kernels, user-chosen lifecycles, libfftw3/libstdc++ internals; R7 is generous about
+what counts as a write (any loop-indexed element store, any opaque external callee), i.e. it decides "some write comes first", not
+that the write covers every element.
 """
 import re
 
@@ -91,6 +95,7 @@ def run(chk):
                     chk.refuted("R3", "%s: %s" % (f.name, text[:80]), where="%s:%s" % (f.file, line), detail="%s: %s" % (kind, text),
                                 variant=vn)
         chk.set_count("R1.local_arrays", narr)
+        check_initialised(chk, v, fns)
         chk.set_count("R9.sized_object_uses", nsized)
         chk.set_count("R10.memcpy_ranges_over_field_arrays", nmem)
         chk.set_count("R3.allocations_in_functions", npair)
@@ -510,3 +515,36 @@ def check_field_arrays(chk, v, f, rel, fext, earr):
             chk.ob("R10", key, {"proved": "proved", "refuted": "refuted"}.get(s_, "assumed"), where="%s:%s" % (f.file, x["l"]),
                    detail="%s bytes = %s elements from offset %s: %s" % (sym.show(nbytes)[:60], sym.show(cnt)[:60], sym.show(off)[:30], d_[:160]), variant=v.name)
     return n
+
+
+# ------------------------------------------------------------------------------ R7: written before read
+def check_initialised(chk, v, fns):
+    """objects and arrays created in a library function with uninitialised contents are written before they are read
+    (sa/initflow.py: first-access summaries of callees, assembly functions included)"""
+    from sa import initflow
+    vn = v.name
+    F = initflow.InitFlow(v)
+    nobj = 0
+    for f in fns:
+        if f.get("implicit") or f.get("defaulted"):
+            continue
+        objs, events = F.local_objects(f)
+        if not objs:
+            continue
+        bad = {}
+        for o, desc, oline, path, line, how in events:
+            bad.setdefault((desc, oline), []).append((path, line, how))
+        for o, rec, desc, oline, up in objs:
+            nobj += 1
+            key = "%s: %s created at line %s is written before it is read" % (f.name, desc, oline)
+            ev = bad.get((desc, oline))
+            where = "%s:%s" % (f.file, oline)
+            if ev:
+                path, line, how = ev[0]
+                chk.refuted("R7", key, where="%s:%s" % (f.file, line),
+                            detail="%s is read at line %s (%s) and nothing on that path has written it since it was created uninitialised at line %s" % (
+                                ("its part " + ".".join(path)) if path else "the array", line, how, oline), variant=vn)
+            else:
+                chk.proved("R7", key, where=where, detail="uninitialised at birth: %s; first access on every path is a write" % (
+                    sorted(".".join(p) or "elements" for p in up)), variant=vn)
+    chk.vcount(vn, "R7.objects_created_uninitialised", nobj)
